@@ -115,7 +115,6 @@ PROBES = [
     ("string-prefix-uppercase-u-kind", "m", "U'a'\n"),
     ("fstring-concat-u-kind-not-in-format-spec", "m", "u'a' f'{x:>{w}}'\n"),
     ("subscript-starred-index-not-full-expression", "m", "x[*a or b]\n"),
-    ("type-alias-not-at-line-start", "m", "pass; type X = int\n"),
     ("with-item-starred-target", "m", "with x as *a: pass\n"),
 ]
 
@@ -204,13 +203,6 @@ def classify_reject(src, out):
                 if any(t.string == "lambda" for t in toks):
                     return "softkw-head-nested-lambda-colon"
                 return "softkw-head-other-colon"
-        # `type X = …` after `;` or after a compound header on the same line
-        pre = b[:off].decode("utf-8", "replace")
-        if re.search(r"(;|:)[ \t]*type[ \t]+$", pre) or re.search(r"(;|:)[ \t]*type[ \t]+$", b[:off + 0].decode("utf-8", "replace")):
-            return "type-alias-not-at-line-start"
-        line0 = _line_of(src, off)
-        if re.search(r"[;:][ \t]*type[ \t]+\w+[^=\n]*=", line0):
-            return "type-alias-not-at-line-start"
         if _starred_index_shape(b, off):
             return "subscript-starred-index-not-full-expression"
         pre = b[:off].decode("utf-8", "replace")
@@ -647,6 +639,9 @@ def streams(ctx):
 "x[*a]\n", "x[ *a ]\n", "x[*a,]\n", "x[*a, b]\n", "x[(*a,)]\n", "tuple[*tuple[*Ts]]\n", "def f(*args: *Ts) -> Tuple[*Ts]: ...\n", "x[*a] = 1\n", "del x[*a]\n", "x[*a | b]\n",
               "x[a]\n", "x[a:b]\n", "x[a := 1]\n",      # repaired (`x[*a]`: the slice is Tuple([Starred])): regressions are violations
               "(x): int = 1\n", "(x): int\n", "((x)): int = 1\n", "x: int = 1\n", "(x.y): int = 1\n", "if a: (x): int = 1\n", "pass; (x): int\n",   # repaired (annassign simple flag): regressions are violations
+              "x = 1; type = 2\n", "lambda: type\n", "f = lambda: type\n", "d = {a: type}\n", "x[a: type]\n", "def f(a: type = 1): pass\n",
+              "x: type = int\n", "x: type\n", "if (lambda: type): pass\n", "if x: type = 1\n", "if x: type(y)\n", "if x: type[T] = 1\n",
+              "pass; type(x)\n", "pass; type\n", "pass; type = type\n", "if x: type\n", "pass; type.x = 1\n",   # `type` stays a NAME behind `;` / `:` (repair of type-alias-not-at-line-start)
               "﻿x = 1\n", "x = 1\r\ny = 2\r\n", "x = 1\ry = 2\r", "if x:\n\ty\n", "x = \\\n  1\n", "", "\n", "# only a comment", "pass"]
     reqs += [refsweep.make_request("m", 1, s, None) for s in corpus]
     reqs += [refsweep.make_request("i", 1, s, None) for s in corpus[:40]]
@@ -727,8 +722,22 @@ def _pep695_corpus():
         ("class G1[T, *U](B, metaclass=M): pass\n", "class G1(B, metaclass=M): pass\n",
          [{"kind": "params", "defname": "G1", "params": [["TypeVar", "T", None], ["TypeVarTuple", "U"]]}]),
         ("if x:\n    type X = int\n", "if x:\n    _PVTA_1 = int\n", [{"kind": "alias", "marker": "_PVTA_1", "name": "X", "params": []}]),
+        # repaired (a type alias may follow `;` or a one-line compound header): regressions are violations
         ("pass; type X = int\n", "pass; _PVTA_1 = int\n", [{"kind": "alias", "marker": "_PVTA_1", "name": "X", "params": []}]),
         ("if x: type X = int\n", "if x: _PVTA_1 = int\n", [{"kind": "alias", "marker": "_PVTA_1", "name": "X", "params": []}]),
+    ]
+    al = lambda k, name="X", params=(): {"kind": "alias", "marker": "_PVTA_%d" % k, "name": name, "params": list(params)}
+    for head in ("for x in y:", "while x:", "class C:", "if x: pass\nelse:", "try: pass\nfinally:", "try: pass\nexcept E:",
+                 "with a as b:", "match x:\n  case y:", "def f():", "async def f():", "if x: y;", "if x:\n  pass;", "print(1);",
+                 "x = [1];", "x = {1: 2};", "x = d[1:2];", "x = (lambda: 1);", "if d[1:2]:", "if {1: 2}:", "if (lambda: 1):",
+                 "if x: # c\n ", "pass ;", "x: int = 1;", "lambda: 0;", "if lambda: 0:"):
+        items.append((head + " type X = int\n", head + " _PVTA_1 = int\n", [al(1)]))
+    items += [
+        ("x = 1; type X = 2; type Y[T] = T\n", "x = 1; _PVTA_1 = 2; _PVTA_2 = T\n", [al(1), al(2, "Y", [["TypeVar", "T", None]])]),
+        ("if x: type X[T] = T; type type = type\n", "if x: _PVTA_1 = T; _PVTA_2 = type\n", [al(1, "X", [["TypeVar", "T", None]]), al(2, "type")]),
+        ("pass; type match = int\n", "pass; _PVTA_1 = int\n", [al(1, "match")]),
+        ("pass; type X \\\n = int\n", "pass; _PVTA_1 \\\n = int\n", [al(1)]),
+        ("if x: type X = ( # c\n int)\n", "if x: _PVTA_1 = ( # c\n int)\n", [al(1)]),
     ]
     out = []
     for text, twin, patches in items:
